@@ -2170,6 +2170,31 @@ Proof.
   split; [rewrite G8; symmetry; exact Hcl|]. exact G4.
 Qed.
 
+(* the scan added by 7e5011a (D27): what its two answers mean *)
+Lemma other_match_false upper oem ss ev dst : other_match upper oem ss ev dst = Ok false ->
+  forall l other, dir_entries oem ss = Ok l -> In other l -> Lfn.ev_end other <> Lfn.ev_end ev ->
+    matches upper oem dst other = false.
+Proof.
+  unfold other_match. intros H l other DE Hin Hne. rewrite DE in H. cbn [bind] in H. injection H as H.
+  destruct (matches upper oem dst other) eqn:M; [|reflexivity]. exfalso.
+  assert (existsb (fun o => negb (Lfn.ev_end o =? Lfn.ev_end ev) && matches upper oem dst o) l = true) as X.
+  { apply existsb_exists. exists other. split; [exact Hin|]. rewrite M. apply N.eqb_neq in Hne. rewrite Hne. reflexivity. }
+  congruence.
+Qed.
+Lemma other_match_true upper oem ss ev dst : other_match upper oem ss ev dst = Ok true ->
+  exists l other, dir_entries oem ss = Ok l /\ In other l /\ Lfn.ev_end other <> Lfn.ev_end ev /\
+    matches upper oem dst other = true.
+Proof.
+  unfold other_match. intros H. destruct (dir_entries oem ss) as [l| | |]; try discriminate. cbn [bind] in H. injection H as H.
+  apply existsb_exists in H. destruct H as (other & Hin & H). apply andb_true_iff in H. destruct H as [H1 H2].
+  exists l, other. split; [reflexivity|]. split; [exact Hin|]. split; [|exact H2].
+  apply negb_true_iff in H1. apply N.eqb_neq. exact H1.
+Qed.
+Lemma other_match_total upper oem ss ev dst : exists b, other_match upper oem ss ev dst = Ok b.
+Proof.
+  unfold other_match, dir_entries. destruct (LfnProofs.read_dir_total Lfn.VecBuf oem true ss) as [l ->]. cbn [bind]. eexists. reflexivity.
+Qed.
+
 (* Dir::rename within one directory (rename_internal with dst_dir = self), on success.  The source [ev] found by the
    library's own matching is ONE decoded entry [e], and exactly one of three things happened:
    - the destination name is not in use: the decoding loses exactly e and gains exactly one entry with the new long name,
@@ -2178,8 +2203,9 @@ Qed.
      (has_exact_name): nothing changed;
    - it resolves to the source entry itself under ANOTHER spelling (other case of the long name, or the entry's alias):
      the entry is rewritten - the map key (raw short name) of e now holds an entry with the new long name, the SAME
-     short name and the source's attributes, size and first cluster; every other key is as before.  (Before 46d26a5
-     this case was a no-op: D22.)  [length (e_sfn e) = 11]: the source's short slot has its 11 name bytes, true of every
+     short name and the source's attributes, size and first cluster; every other key is as before - and NO OTHER listed
+     entry matches the new spelling (the scan added by 7e5011a, D27: otherwise the call fails with AlreadyExists).
+     (Before 46d26a5 this case was a no-op: D22.)  [length (e_sfn e) = 11]: the source's short slot has its 11 name bytes, true of every
      32-byte slot. *)
 Theorem rename_in_dir_refines upper oem k free fat32 ss src dst es ls ss' :
   dir_scan ss 0 [] fat32 = (es, ls, []) -> len_N ss < 134217728 -> Forall attrs_sane ss -> Forall bytes_ok ss ->
@@ -2204,7 +2230,10 @@ Theorem rename_in_dir_refines upper oem k free fat32 ss src dst es ls ss' :
            e_lfn ne = (if is_dot_name dst then [] else utf16_encode dst) /\ e_lfn_ok ne = true /\
            e_sfn ne = e_sfn e /\
            e_attr ne = e_attr e mod 64 /\ e_size ne = e_size e /\ e_cluster ne = e_cluster e /\
-           forall key, dir_map es' key = if list_eqb (e_sfn e) key then Some ne else dir_map es key))).
+           forall key, dir_map es' key = if list_eqb (e_sfn e) key then Some ne else dir_map es key) /\
+        (has_exact_name ev dst = false ->
+         forall l other, dir_entries oem ss = Ok l -> In other l -> Lfn.ev_end other <> Lfn.ev_end ev ->
+           matches upper oem dst other = false))).
 Proof.
   intros H0 Hb Hs Hby ND H. unfold rename_in_dir, lift in H.
   destruct (find_entry upper oem ss src None) as [ev| | |] eqn:F; try discriminate.
@@ -2219,8 +2248,11 @@ Proof.
     right. exists dv. destruct (Lfn.ev_end ev =? Lfn.ev_end dv) eqn:EE; cbn [negb] in H; [|discriminate].
     apply N.eqb_eq in EE. split; [reflexivity|]. split; [symmetry; exact EE|].
     destruct (has_exact_name ev dst) eqn:HX.
-    + injection H as <-. split; [reflexivity|discriminate].
-    + split; [discriminate|]. intros _ L1. rewrite Hn in H.
+    + injection H as <-. split; [reflexivity|]. split; discriminate.
+    + split; [discriminate|].
+      destruct (other_match upper oem ss ev dst) as [[|]| | |] eqn:OM; try discriminate.
+      split; [|intros _; exact (other_match_false upper oem ss ev dst OM)].
+      intros _ L1. rewrite Hn in H.
       assert (forall x, In x es -> x <> e -> e_sfn x <> e_sfn e) as Hnew.
       { intros x Hx Hne C'. destruct (in_split _ _ Hin) as [l1 [l2 ->]].
         rewrite map_app in ND. cbn [map] in ND. apply NoDup_remove_2 in ND. apply ND. rewrite <- C', <- map_app.
@@ -2285,6 +2317,7 @@ Proof.
   destruct (check_for_existence upper oem ss dst None) as [[dv|a]| | |]; try (injection H as _ <-; apply Same; reflexivity).
   - destruct (negb (Lfn.ev_end ev =? Lfn.ev_end dv)); [injection H as _ <-; apply Same; reflexivity|].
     destruct (has_exact_name ev dst); [injection H as _ <-; apply Same; reflexivity|].
+    destruct (other_match upper oem ss ev dst) as [[|]| | |]; try (injection H as _ <-; apply Same; reflexivity).
     eapply Rew. exact H.
   - eapply Rew. exact H.
 Qed.
